@@ -53,6 +53,8 @@ LAYOUTS = {
     'split-rev': dict(ifaces=(('org.v.I2', 'org.v.I1n'), ('org.v.I1',)), sub=(1, 3, 4, 5), anon=(), order=(7, 6, 5, 4, 3, 2, 1)),
     'sub-first': dict(ifaces=(('org.v.I1',), ('org.v.I2', 'org.v.I1n')), sub=(2, 6, 7), anon=(3, 4, 5, 6, 7), order=(2, 6, 5, 1, 7, 3, 4)),
     'anon': dict(ifaces=((), ('org.v.I2', 'org.v.I1', 'org.v.I1n')), sub=(1, 3, 5), anon=(3, 4, 5, 6), order=(4, 3, 1, 6, 2, 5, 7)),
+    # the `sub` declarations live in a plain mixin class listed AFTER the DBusObject-derived base: class Sub(Base, Mixin)
+    'mixin': dict(ifaces=(('org.v.I1', 'org.v.I2', 'org.v.I1n'), ()), sub=(2, 3, 6), anon=(), order=(3, 1, 2, 7, 6, 5, 4), mixin=True),
 }
 
 
@@ -89,6 +91,9 @@ def build_classes(layout='base-both'):
             setattr(self, _attr, _v)
             Base.__init__(self, path)
         sub_attrs['__init__'] = __init__
+    if lay.get('mixin'):
+        Mixin = type('Mixin', (object,), sub_attrs)
+        return type('Sub', (Base, Mixin), {})
     Sub = type('Sub', (Base,), sub_attrs)
     return Sub
 
